@@ -18,6 +18,7 @@ pub proof fn lemma_free_nodes_push_live<N, Ix: IndexType>(ns0: Seq<Node<Option<N
     assert forall|i: int, j: int| 0 <= i && j == i + 1 && j < fl.len() implies ns1[#[trigger] fl[j]].next[1].0.ix() == #[trigger] fl[i] by { assert(ns1[fl[j]] == ns0[fl[j]]); }
 }
 /// appending a vacant node x that points forward to the old head h (whose back link now names x) makes x the new head
+#[verifier::spinoff_prover]
 pub proof fn lemma_free_nodes_push_vacant<N, Ix: IndexType>(ns0: Seq<Node<Option<N>, Ix>>, ns1: Seq<Node<Option<N>, Ix>>, h: int, fl: Seq<int>)
     requires free_nodes_ok(ns0, h, fl, -1), ns1.len() == ns0.len() + 1, ns0.len() < end_ix::<Ix>(),
         ns1[ns0.len() as int].weight is None, ns1[ns0.len() as int].next[0].0.ix() == h, ns1[ns0.len() as int].next[1].0.ix() == end_ix::<Ix>(),
